@@ -82,3 +82,85 @@ func VerifC29_defaultHeader() {
 		vrt.Assert(xff[0] == ipStr || hasSuffixC29(xff[0], ", "+ipStr), "C29/xff-ends-with-peer")
 	}
 }
+
+// ---------------------------------------------------------------------------------------------------
+// Focused harnesses (added after the seeded-change review, see notes/C29.md).
+
+// lastElemIsC29: is the last element of the comma-separated list s (OWS trimmed) equal to want?
+// want contains neither ',' nor OWS.
+func lastElemIsC29(s, want string) bool {
+	last := -1
+	for i := 0; i < len(s); i++ {
+		if s[i] == ',' {
+			last = i
+		}
+	}
+	e := s[last+1:]
+	for len(e) > 0 && (e[0] == ' ' || e[0] == '\t') {
+		e = e[1:]
+	}
+	for len(e) > 0 && (e[len(e)-1] == ' ' || e[len(e)-1] == '\t') {
+		e = e[:len(e)-1]
+	}
+	return e == want
+}
+
+func runDefaultHeaderC29(peer *net.TCPAddr, h bfe_http.Header) bfe_http.Header {
+	conn := &fakeConnC29{local: &net.TCPAddr{IP: net.IP{192, 168, 0, 1}, Port: 80}, remote: peer}
+	sess := &bfe_basic.Session{RemoteAddr: peer, Connection: conn}
+	sess.SetTrustSource(false)
+	req := &bfe_basic.Request{
+		Connection: conn, Session: sess, RemoteAddr: peer,
+		ClientAddr:  peer, // what setClientAddr leaves for an untrusted peer (VerifC29_untrusted)
+		HttpRequest: &bfe_http.Request{Header: h, Host: "example.org", RemoteAddr: peer.String()},
+	}
+	m := &ModuleHeader{name: "mod_header"}
+	m.setDefaultHeader(req)
+	return req.HttpRequest.Header
+}
+
+// VerifC29_xffLastHop: an untrusted peer (1.1.2.3 or 10.1.2.3) whose X-Forwarded-For value is 0..P symbolic
+// bytes followed by the text of its own address ("21.1.2.3", "x,1.1.2.3", " 1.1.2.3" ...), optionally after
+// a first X-Forwarded-For line. The last hop sent upstream - the last list element, not merely the last
+// characters - must be the peer's address.
+func VerifC29_xffLastHop() {
+	ip := []net.IP{{1, 1, 2, 3}, {10, 1, 2, 3}}[vrt.Choose("peer", 2)]
+	peer := &net.TCPAddr{IP: ip, Port: 80}
+	ipStr := ip.String()
+	pre := vrt.Str("pre", vrt.Range("prelen", 0, vrt.Param("P", 2)))
+	h := bfe_http.Header{}
+	if vrt.Bool("two-lines") {
+		h["X-Forwarded-For"] = []string{"8.8.8.8", pre + ipStr}
+	} else {
+		h["X-Forwarded-For"] = []string{pre + ipStr}
+	}
+	out := runDefaultHeaderC29(peer, h)
+	xff := out["X-Forwarded-For"]
+	vrt.Assert(len(xff) == 1, "C29/xff-single-line")
+	if len(xff) == 1 {
+		vrt.Assert(lastElemIsC29(xff[0], ipStr), "C29/xff-last-hop-is-peer")
+	}
+	vrt.Assert(len(out["X-Real-Ip"]) == 1 && out["X-Real-Ip"][0] == ipStr, "C29/x-real-ip-is-peer")
+}
+
+// VerifC29_repeatedHeaders: each of the four client-supplied address headers is absent, present once or
+// repeated (two lines), every value one symbolic byte. Everything sent upstream under X-Real-Ip /
+// X-Real-Port is the peer's socket address - all values of the field, not only the first.
+func VerifC29_repeatedHeaders() {
+	peer := &net.TCPAddr{IP: net.IP{10, 1, 2, 3}, Port: 4321}
+	ipStr, portStr := "10.1.2.3", "4321"
+	h := bfe_http.Header{}
+	for _, name := range addrHeadersC29 {
+		for i, n := 0, vrt.Range("lines", 0, 2); i < n; i++ {
+			h[name] = append(h[name], vrt.Str("hv", 1))
+		}
+	}
+	out := runDefaultHeaderC29(peer, h)
+	vrt.Assert(len(out["X-Real-Ip"]) == 1 && out["X-Real-Ip"][0] == ipStr, "C29/x-real-ip-is-peer")
+	vrt.Assert(len(out["X-Real-Port"]) == 1 && out["X-Real-Port"][0] == portStr, "C29/x-real-port-is-peer")
+	xff := out["X-Forwarded-For"]
+	vrt.Assert(len(xff) == 1, "C29/xff-single-line")
+	if len(xff) == 1 {
+		vrt.Assert(lastElemIsC29(xff[0], ipStr), "C29/xff-last-hop-is-peer")
+	}
+}
